@@ -205,3 +205,45 @@ def guarded_through(members: list[FuncInfo], g: FuncInfo, node: ast.AST, try_pre
 	sites = [(h, c) for h in members if h is not g for c in walk_no_nested(h.node)
 		if isinstance(c, ast.Call) and ((isinstance(c.func, ast.Attribute) and c.func.attr == g.name) or (isinstance(c.func, ast.Name) and c.func.id == g.name))]
 	return bool(sites) and all(guarded_through(members, h, c, try_pred, depth + 1) for h, c in sites)
+
+
+def inlined_bodies(func: FuncInfo, depth: int = 2) -> list[ast.AST]:
+	"""the alias-expanded body of func plus, for each call of a same-class private helper or sibling nested function, the helper's body with
+	its parameters replaced by the call's arguments (so that reads inside an extracted helper are seen in the caller's terms)"""
+	import copy
+	out = [X(func)]
+	work = [(func, X(func), 0)]
+	seen = {id(func)}
+	while work:
+		f, fx, d = work.pop()
+		if d >= depth:
+			continue
+		for c in nodes(fx, ast.Call):
+			g = None
+			if isinstance(c.func, ast.Attribute) and isinstance(c.func.value, ast.Name) and c.func.value.id in ('self', 'cls') and f.cls is not None:
+				g = f.cls.method(c.func.attr)
+			elif isinstance(c.func, ast.Name):
+				g = f.module.functions.get(f'{f.qualname}.<locals>.{c.func.id}')
+			if g is None or id(g) in seen:
+				continue
+			seen.add(id(g))
+			params = [a.arg for a in g.node.args.posonlyargs + g.node.args.args]
+			if params and params[0] in ('self', 'cls') and isinstance(c.func, ast.Attribute):
+				params = params[1:]
+			binding: dict[str, ast.AST] = {}
+			for p_, a in zip(params, c.args):
+				if not isinstance(a, ast.Starred):
+					binding[p_] = a
+			for kw in c.keywords:
+				if kw.arg:
+					binding[kw.arg] = kw.value
+
+			class S(ast.NodeTransformer):
+				def visit_Name(self, node: ast.Name):
+					if isinstance(node.ctx, ast.Load) and node.id in binding:
+						return copy.deepcopy(binding[node.id])
+					return node
+			gx = S().visit(copy.deepcopy(X(g)))
+			out.append(gx)
+			work.append((g, gx, d + 1))
+	return out
